@@ -23,6 +23,7 @@ GROUPS = {
     "gen_range": dict(filter="k_gen::range_", bounded="BOUNDED: a, b, step symbolic i32 within +-2^8; complete over that band, both step directions"),
     "gen_range_wide": dict(filter="k_gen::wide_range_", bounded="BOUNDED: a, b, step symbolic i32 within +-2^12; both step directions"),
     "gen_linspace": dict(filter="k_gen::linspace_", bounded="a, b symbolic i32 within +-2^24, n <= 2^20"),
+    "time_calendar_bounded": dict(filter="k_time::calendar_conversion_", bounded="BOUNDED: millisecond / microsecond date-times within +-4096 units of the epoch (includes negative, non-whole-second instants), read back with chrono's accessors"),
     "time_nat": dict(filter="k_time::nat_", bounded=None),
     "time_unit_identity": dict(filter="k_time::unit_identity", bounded=None),
     "time_components": dict(filter="k_time::time_components", bounded=None),
